@@ -189,6 +189,27 @@ def check_percolation(out: Outcome, rng, maxshape):
     check_perc_case(out, case, 'percolation')
 
 
+def check_percolation_pocket(out: Outcome, rng):
+    """one supplied peak sits in a pocket (all its neighbours blocked) and is listed among peaks of open channels: the
+    result must still be the cheapest percolating path over ALL supplied peaks, wherever the pocket peak is listed"""
+    shape = [5, 4, 5]
+    E = rng.integers(0, 33, size=shape) / 8.0
+    E[rng.random(shape) < 0.05] = BIGF
+    p0 = np.array([int(rng.integers(0, n)) for n in shape])
+    for d in np.argwhere(np.ones((3, 3, 3))) - 1:
+        if d.any():
+            E[tuple((p0 + d) % shape)] = BIGF
+    E[tuple(p0)] = float(rng.integers(0, 9)) / 8.0
+    dirs = ''.join(d for d in 'xyz' if rng.random() < 0.5) or 'z'
+    vis = np.array([v for v in np.argwhere(E < 1e7) if not (v == p0).all()])
+    if len(vis) < 2:
+        return
+    others = vis[rng.choice(len(vis), size=2, replace=False)]
+    peaks = np.vstack([others[:1], [p0], others[1:]])[rng.permutation(3)]
+    case = {'percolation': True, 'shape': shape, 'E': E.reshape(-1).tolist(), 'dirs': dirs, 'peaks': peaks.tolist(), 'pocket': p0.tolist()}
+    check_perc_case(out, case, 'percolation-pocket')
+
+
 def check_perc_case(out: Outcome, case, tag):
     shape = tuple(case['shape'])
     E = np.array(case['E'], float).reshape(shape)
@@ -275,6 +296,8 @@ def run(tier: str, seed: int, scale: int) -> Outcome:
         check_case(out, gen_case(rng, ms), 'random')
     for _ in range((100 if tier == 'quick' else 1000) * scale):
         check_percolation(out, rng, (4, 3, 5) if tier == 'quick' else (5, 5, 5))
+    for _ in range((30 if tier == 'quick' else 300) * scale):
+        check_percolation_pocket(out, rng)
     return out
 
 
